@@ -7,8 +7,10 @@
    conntrack rules + the jump to the failsafe chain + ANYTHING, and that the from-workload dispatch is a tree of
    exact interface matches ending in a deny.  Verdicts are per hook (Spec.hook) for an arbitrary entry mark and
    conntrack state; the kernel's raw -> mangle -> filter ordering is the stated assumption.
-   PARTIAL by design: NAT table, mangle POSTROUTING, Wireguard crypto routing (only its mark chain and allow rules are
-   modelled), BPF-mode raw chains, kube-ipvs paths are outside the model. *)
+   PARTIAL by design: NAT table, Wireguard crypto routing (only its mark chain and allow rules are modelled), BPF-mode raw
+   chains are outside the model.  kube-ipvs mode (KubeIPVSSupportEnabled) is modelled; the failsafe and tunnel theorems
+   cover it, the unknown-interface (INPUT) and workload-to-host theorems are stated for c_ipvs = false (missing: a
+   'forward-check hands the packet back unchanged or drops it' lemma for packets from workload interfaces). *)
 From Coq Require Import List NArith Bool String.
 From Verif.Common Require Import Packet Ipt.
 From Verif.C40 Require Import Model Spec Shape Proofs ProofsFailsafe ProofsFsHooks ProofsRaw ProofsMain ProofsDrop
@@ -23,7 +25,7 @@ Open Scope N_scope.
 Theorem c40_failsafe_accept_all_paths : forall c raw mangle filter e p,
   cfg_ok c -> N.land (c_wg_mark c) (c_scr0 c) = 0 ->
   (forall q m, e_other e (2 * O_DST_LOCAL) (set_mark q m) = e_other e (2 * O_DST_LOCAL) q) ->
-  installed c raw mangle filter -> hep_shapes raw mangle filter ->
+  installed c raw mangle filter -> hep_shapes raw mangle filter -> ipvs_shape c filter ->
   pk_ver p = c_ver c ->
   fs_in_ok c raw mangle filter e p = true /\ fs_out_ok c raw mangle filter e p = true.
 Proof. exact failsafe_accept_all_paths. Qed.
@@ -79,7 +81,7 @@ Theorem c40_unknown_workload_iface_dropped : forall c filter e disp hepfwd towl 
   lookup filter CH_FROM_HEP_FWD = Some hepfwd -> (forall n, callee_dp filter e (I_unk c filter disp) (S n) hepfwd) ->
   lookup filter CH_TO_WL = Some towl -> (forall n, callee_dp filter e (I_unk c filter disp) (S n) towl) ->
   wl_iface c (pk_in p) = true -> name_in (pk_in p) (wl_names filter disp) = false ->
-  (pre_rules_miss c e p -> infra_allowed c e p = false -> hook filter e CH_INPUT p = VDrop)
+  (c_ipvs c = false -> pre_rules_miss c e p -> infra_allowed c e p = false -> hook filter e CH_INPUT p = VDrop)
   /\ hook filter e CH_FORWARD p = VDrop.
 Proof. exact unknown_workload_iface_dropped. Qed.
 Print Assumptions c40_unknown_workload_iface_dropped.
@@ -109,7 +111,7 @@ Print Assumptions c40_unknown_iface_forward_established_refuted.
 
 (* 2'. the INPUT half in Spec.v's vocabulary: not allow-listed infrastructure traffic, not a pre-policy special case *)
 Theorem c40_unknown_workload_iface_dropped_input : forall c filter e disp p,
-  cfg_ok c ->
+  cfg_ok c -> c_ipvs c = false ->
   lookup filter CH_INPUT = Some (filter_input c) -> lookup filter CH_WL_TO_HOST = Some (wl_to_host c) ->
   lookup filter CH_FROM_WL = Some disp -> wl_root_ok filter disp = true ->
   pk_ver p = c_ver c -> wl_iface c (pk_in p) = true -> name_in (pk_in p) (wl_names filter disp) = false ->
@@ -125,7 +127,7 @@ Print Assumptions c40_unknown_workload_iface_dropped_input.
    (wl_host_ok false = Spec.v's clause with the pre-policy special cases excused; `body` is ARBITRARY; the only
    assumption on it is that its evaluation needs at most 11 nested jumps.) *)
 Theorem c40_wl_to_host_policy_then_action : forall c filter e wl disp ch body p,
-  ep_action_ok (c_ep_to_host c) ->
+  ep_action_ok (c_ep_to_host c) -> c_ipvs c = false ->
   lookup filter CH_INPUT = Some (filter_input c) -> lookup filter CH_WL_TO_HOST = Some (wl_to_host c) ->
   lookup filter CH_FROM_WL = Some disp ->
   lookup_wl wl (pk_in p) = Some ch -> wl_target filter disp (pk_in p) = Some ch -> lookup filter ch = Some body ->
@@ -137,14 +139,14 @@ Print Assumptions c40_wl_to_host_policy_then_action.
 
 (* the chain-level form, for every jump budget and without the dispatch-tree condition *)
 Theorem c40_wl_to_host_chain : forall c cs e disp n p,
-  lookup cs CH_FROM_WL = Some disp -> lookup cs CH_WL_TO_HOST = Some (wl_to_host c) ->
+  lookup cs CH_FROM_WL = Some disp -> lookup cs CH_WL_TO_HOST = Some (wl_to_host c) -> c_ipvs c = false ->
   wl_iface c (pk_in p) = true -> front_miss c e p -> pre_rules_miss c e p ->
   G cs e (S (S n)) (filter_input c) p =
   match G cs e n disp p with
   | RFall p' | RReturn p' => goto_wrap (G cs e (S n) [R [] (c_ep_to_host c)] p')
   | r => r
   end.
-Proof. intros c cs e disp n p Hd Hw. exact (wl_to_host_policy_then_action_partial c cs e disp Hd Hw n p). Qed.
+Proof. intros c cs e disp n p Hd Hw Hi. exact (wl_to_host_policy_then_action_partial c cs e disp Hd Hw Hi n p). Qed.
 Print Assumptions c40_wl_to_host_chain.
 
 (* 4. Tunnels: with IPIP enabled an IPIP packet whose source is not in all-hosts-net, and with VXLAN enabled a UDP
@@ -162,7 +164,7 @@ Print Assumptions c40_tunnel_from_non_cluster_dropped.
    and the hand-back conditions collected in `wl_side` (ProofsMeets.v).  This is the statement the correspondence run
    instantiates: per case it checks model = real static chains and the shapes, then evaluates the same oracle. *)
 Theorem c40_model_meets_spec : forall c raw mangle filter wl e disp hepfwd towl p,
-  cfg_ok c -> ep_action_ok (c_ep_to_host c) -> N.land (c_wg_mark c) (c_scr0 c) = 0 ->
+  cfg_ok c -> ep_action_ok (c_ep_to_host c) -> c_ipvs c = false -> N.land (c_wg_mark c) (c_scr0 c) = 0 ->
   (forall q m, e_other e (2 * O_DST_LOCAL) (set_mark q m) = e_other e (2 * O_DST_LOCAL) q) ->
   installed c raw mangle filter -> hep_shapes raw mangle filter ->
   disp_ok raw (raw_hep_ok CH_FS_IN) CH_FROM_HEP = true -> disp_ok raw (raw_hep_ok CH_FS_OUT) CH_TO_HEP = true ->
